@@ -23,7 +23,7 @@ def oenc(s):
     return '~' if s is None else enc(s)
 
 NAMES = ['a', 'b', 'c', 'd', 'item', 'x1', '_u', 'n-1', 'v.2', 'A', 'él', '名', 'list', 'k']
-ATTRS = ['id', 'x', 'y', 'name', 'ref', 'k-1', 'ä', 'z_', 'lang', 'n']
+ATTRS = ['id', 'x', 'X', 'y', 'name', 'Name', 'ref', 'k-1', 'ä', 'Ä', 'z_', 'lang', 'n', 'ID']
 PREFIXES = ['p', 'q', 'ns1']
 URIS = ['urn:a', 'http://example.org/b', 'u:c']
 ENTS = ['e1', 'e2', 'ent', 'w', 'é']
